@@ -1177,3 +1177,18 @@ Definition ed_init (vi : bool) (h : list (list Z)) : ed :=
      hist := h; hpos := -1; hcpos := -1;
      lines := [(-1, {| u_pos := 0; u_items := [([], 0)] |})]; uskip := false; undoing := false;
      accepted := false; accept_hold := false; accept_err := 0; accept_line := []; infer := false; written := [] |}.
+
+(* ------------------------------------------------------------------ commands as the key loop runs them *)
+
+(* the application state of the key loop (Dispatch.v): the editor, or the panic that
+   stopped it; a command the model does not implement is treated as not registered *)
+Definition ed_exec (mem_kind : bool) (max_entries : Z) (act keys : list Z) (st : res ed) : option (res ed * bool) :=
+  if existsb (eqlZ act) modelled_commands then
+    match st with
+    | Ok e => match run_one act keys mem_kind max_entries e with
+              | Ok e' => Some (Ok e', accepted e')
+              | r => Some (r, true)
+              end
+    | r => Some (r, true)
+    end
+  else None.
